@@ -290,6 +290,14 @@ def main():
                     except Exception:
                         pass
                     del b
+                    # ... and through the tree classes (a tree stored as one inline leaf: state ((leafstate,),))
+                    tb = cls()
+                    try:
+                        res = tb._p_resolveConflict(((st(o),),), ((st(c),),), ((st(nw),),))
+                        del res
+                    except Exception:
+                        pass
+                    del tb
                     now = refs()
                     if now != base:
                         gc.collect()
